@@ -139,6 +139,20 @@ pub fn decompress_svgz(data: &[u8]) -> Result<Vec<u8>, Error> {
     Ok(decoded)
 }
 
+/// Like `NonZeroRect::bbox_transform`, but returns `None` instead of panicking
+/// when the result is not a valid rect (zero-sized or not finite).
+pub(crate) fn bbox_transform(
+    rect: tiny_skia_path::NonZeroRect,
+    bbox: tiny_skia_path::NonZeroRect,
+) -> Option<tiny_skia_path::NonZeroRect> {
+    tiny_skia_path::NonZeroRect::from_xywh(
+        rect.x() * bbox.width() + bbox.x(),
+        rect.y() * bbox.height() + bbox.y(),
+        rect.width() * bbox.width(),
+        rect.height() * bbox.height(),
+    )
+}
+
 #[inline]
 pub(crate) fn f32_bound(min: f32, val: f32, max: f32) -> f32 {
     debug_assert!(min.is_finite());
